@@ -271,9 +271,11 @@ void cmb_timeseries_histogram_print(const struct cmb_timeseries *tsp,
         high_lim = dsp->max;
     }
 
-    const unsigned datarange = (unsigned)ceil(high_lim - low_lim);
-    if (datarange < num_bins) {
-        num_bins = (datarange > 0u) ? datarange : 1u;
+    /* Compared as doubles: the range of e.g. an unlimited buffer does not fit
+     * an unsigned, and converting it is undefined (and traps in a process) */
+    const double datarange = ceil(high_lim - low_lim);
+    if (datarange < (double)num_bins) {
+        num_bins = (datarange >= 1.0) ? (uint16_t)datarange : 1u;
     }
 
     struct cmi_dataset_histogram *hp = NULL;
